@@ -92,11 +92,13 @@ type Interp struct {
 	Hooks             map[string]HookFn // per-run call intercepts by full function name; handled=false falls through
 	sched             *scheduler
 	// RaceDetect: record memory accesses per goroutine segment and add happens-before race obligations (race.go)
-	RaceDetect  bool
-	raceSt      *raceState
-	nondetCount map[string]int
-	curPos      token.Pos
-	LastKill    string
+	RaceDetect bool
+	// SecondSolver counts the obligations handed to the second solver release after the first gave up
+	SecondSolver int
+	raceSt       *raceState
+	nondetCount  map[string]int
+	curPos       token.Pos
+	LastKill     string
 }
 
 func NewInterp(p *Program, st *smt.Store, sol *smt.Solver) *Interp {
